@@ -40,3 +40,6 @@ CHECKS["C19"] = check_validate.run
 
 import check_width
 CHECKS["C20"] = check_width.run
+
+import check_wellformed
+CHECKS["C01"] = check_wellformed.run
